@@ -111,6 +111,7 @@ class Inference:
         arena = mem.tags["arena"]
         produced = set()
         alias = {}
+        defined = {}  # root tensor -> mask of the bytes its producer(s) have written so far
 
         def root(ti):
             while ti in alias:
@@ -128,7 +129,18 @@ class Inference:
                 self.v(prop="C12", oracle="input_not_in_arena", tensor=ti)
                 continue
             arena[o:o + t.nbytes()] = owner(ti)
+            defined[ti] = np.ones(t.nbytes(), bool)
             produced.add(ti)
+
+        def classify(ti, seg):
+            """-> (clobbered, undefined) masks: a byte the producer wrote and that no longer carries the tensor's tag was overwritten
+            while live (plan defect, C12); a byte no producer ever wrote is an undefined byte (C03), reported when a CPU operator or
+            the client consumes it - the NPU engine reports its own undefined reads byte by byte"""
+            bad = seg != own(ti)
+            d = defined.get(root(ti))
+            if d is None or len(d) != len(bad):
+                return bad, np.zeros(len(bad), bool)
+            return bad & d, bad & ~d
 
         def check_operand(op, ti, who):
             t = m.tensors[ti]
@@ -141,11 +153,15 @@ class Inference:
                 self.v(prop="C11", oracle="operand_not_produced", op=op.idx, opname=op.name, tensor=ti, tname=t.name)
                 return
             seg = arena[o:o + t.nbytes()]
-            bad = seg != own(ti)
+            bad, undef = classify(ti, seg)
             if bad.any():
                 i = int(np.argmax(bad))
                 self.v(prop="C12", oracle="live_tensor_clobbered", op=op.idx, opname=op.name, tensor=ti, tname=t.name, offset=o + i,
                        found_tag=int(seg[i]), n_bytes=int(bad.sum()), who=who)
+            if undef.any() and who != "npu_input":
+                i = int(np.argmax(undef))
+                self.v(prop="C03", oracle="unwritten_output_consumed", op=op.idx, opname=op.name, tensor=ti, tname=t.name, offset=o + i,
+                       found_tag=int(seg[i]), n_bytes=int(undef.sum()), who=who)
 
         for op in m.ops:
             if op.idx in plan.eops:
@@ -250,6 +266,8 @@ class Inference:
                         if ti in partial:
                             view = arena[o:o + m.tensors[ti].nbytes()]
                             view[partial[ti]] = owner(ti)
+                            d = defined.get(ti)
+                            defined[ti] = partial[ti].copy() if d is None or len(d) != len(partial[ti]) else (d | partial[ti])
                             if not partial[ti].all():
                                 self.stats["partially_written_outputs"] = self.stats.get("partially_written_outputs", 0) + 1
                         produced.add(ti)
@@ -269,6 +287,7 @@ class Inference:
                             alias[ti] = root(src_t)  # in-place view: same bytes, same owner
                         else:
                             arena[o:o + t.nbytes()] = owner(ti)
+                            defined[ti] = np.ones(t.nbytes(), bool)
         for ti in m.outputs:
             t = m.tensors[ti]
             if t.data is not None:
@@ -281,10 +300,13 @@ class Inference:
                 self.v(prop="C11", oracle="output_not_produced", tensor=ti, tname=t.name)
                 continue
             seg = arena[o:o + t.nbytes()]
-            bad = seg != own(ti)
+            bad, undef = classify(ti, seg)
             if bad.any():
                 self.v(prop="C12", oracle="live_tensor_clobbered", op=-1, opname="<model output>", tensor=ti, tname=t.name,
                        offset=o + int(np.argmax(bad)), found_tag=int(seg[int(np.argmax(bad))]), n_bytes=int(bad.sum()), who="client")
+            if undef.any():
+                self.v(prop="C03", oracle="unwritten_output_consumed", op=-1, opname="<model output>", tensor=ti, tname=t.name,
+                       offset=o + int(np.argmax(undef)), found_tag=int(seg[int(np.argmax(undef))]), n_bytes=int(undef.sum()), who="client")
         self.stats["interleavings"] = len(self.stats["interleavings"])
         return self
 
